@@ -33,7 +33,7 @@ fn gen_wide(r: &mut Rng) -> Ledger {
 
 pub fn run(ctx: &mut Ctx) {
     let prop = "C16";
-    ctx.ev.rule = "wide ledgers (6–13 securities, about half fully sold, 2–5 shared disposal dates spread over several tax years, shuffled lines) and the standard generated ledgers: (a) calculate() run 4 times in-process (each HashMap draws a fresh seed) must give equal reports; tax years ascending, disposals by (date, ticker), holdings by ticker; (b) the real binary run 3 times as separate processes for `report --format plain`, `report --format json` and `parse` must give byte-identical stdout; echoed transactions in the text report by (date, ticker); whole report compared with the Lean model (which has no hash maps). Non-trivial = ledgers with ≥ 6 securities and ≥ 2 fully sold; distinct by ledger text.".into();
+    ctx.ev.rule = "wide ledgers (6–13 securities, about half fully sold, 2–5 shared disposal dates spread over several tax years, shuffled lines) and the standard generated ledgers: (a) calculate() run 4 times in-process (each HashMap draws a fresh seed) must give equal reports; tax years ascending, disposals by (date, ticker), holdings by ticker; (a′) the same for the single-year report of each of up to two years with ≥ 2 disposals; (b) the real binary run 3 times as separate processes for `report --format plain`, `report --format json`, `report --year Y --format json` and `parse` must give byte-identical stdout; echoed transactions in the text report by (date, ticker); whole report compared with the Lean model (which has no hash maps). Non-trivial = ledgers with ≥ 6 securities and ≥ 2 fully sold; distinct by ledger text.".into();
     let ex = run_impl::wide_exemptions();
     let mut r = Rng::new(ctx.seed ^ 0xC16);
     let cfg = GenCfg::standard();
@@ -67,12 +67,39 @@ pub fn run(ctx: &mut Ctx) {
         }
         let hs: Vec<&str> = rep.holdings.iter().map(|h| h.ticker.as_str()).collect();
         if hs.windows(2).any(|w| w[0] >= w[1]) { ctx.ev.violation("oracle", format!("holdings not ordered by ticker: {hs:?}"), replay_text(prop, "oracle", "holdings order", &l, &[format!("case {name}")])); }
+        // the single-year report (`--year`, MCP/wasm with a year) goes through a different builder:
+        // same canonical order, same determinism, and equal to the model's
+        for y in rep.tax_years.iter().filter(|y| y.disposals.len() >= 2).take(2) {
+            let yy = y.period.start_year() as i32;
+            ctx.ev.count("single-year-reports");
+            let one = run_impl::impl_calc_raw(&l, Some(yy), &ex);
+            let Ok(Ok(one)) = &one else { ctx.ev.violation("oracle", format!("the all-years report is produced but the report for {yy} fails"), replay_text(prop, "oracle", "single-year report", &l, &[format!("case {name}")])); continue };
+            for ys in &one.tax_years {
+                let keys: Vec<(chrono::NaiveDate, &str)> = ys.disposals.iter().map(|d| (d.date, d.ticker.as_str())).collect();
+                if keys.windows(2).any(|w| w[0] >= w[1]) { ctx.ev.violation("oracle", format!("disposals of the single-year report for {yy} not ordered by date then ticker"), replay_text(prop, "oracle: run `cgt-tool report in.cgt --year <that year> --format json`", "order in the single-year report", &l, &[format!("case {name}"), format!("year {yy}")])); }
+            }
+            for _ in 0..2 {
+                if let Ok(Ok(again)) = run_impl::impl_calc_raw(&l, Some(yy), &ex) { if again != *one { ctx.ev.violation("oracle", format!("two runs of the report for {yy} differ"), replay_text(prop, "oracle", "non-deterministic single-year report", &l, &[format!("case {name}"), format!("year {yy}")])); break; } }
+            }
+            if let Some(m) = ctx.model.as_mut() {
+                if let Ok(mo) = run_impl::model_calc(m, &l, Some(yy), &ex) {
+                    ctx.ev.traces_validated += 1;
+                    let mut p = crate::rep::Proj::full();
+                    if multi_sell_day(&l) { p.legs_exact = false; }
+                    p.err_detail = false;
+                    if let Some(what) = crate::rep::diff_report(&Ok(crate::rep::from_report(one)), &mo, &p) {
+                        ctx.ev.violation("correspondence", format!("report for {yy}: {what}"), replay_text(prop, "correspondence (implementation vs Lean model, single-year report)", &what, &l, &[format!("case {name}"), format!("year {yy}")]));
+                    }
+                }
+            }
+        }
         // separate processes
         if have_cli && cli_budget > 0 && rep.holdings.len() >= 4 {
             cli_budget -= 1;
             let s = cli::Scratch::new();
             s.write("in.cgt", &ledger::dsl(&l));
-            for args in [vec!["report", "in.cgt", "--format", "plain"], vec!["report", "in.cgt", "--format", "json"], vec!["parse", "in.cgt"]] {
+            let year_arg = rep.tax_years.iter().max_by_key(|y| y.disposals.len()).map(|y| y.period.start_year().to_string()).unwrap_or_else(|| "2023".into());
+            for args in [vec!["report", "in.cgt", "--format", "plain"], vec!["report", "in.cgt", "--format", "json"], vec!["report", "in.cgt", "--year", year_arg.as_str(), "--format", "json"], vec!["parse", "in.cgt"]] {
                 let a = cli::run(&s, &args);
                 ctx.ev.count("cli-runs");
                 for _ in 0..2 {
